@@ -9,6 +9,8 @@
 //!     match the terminator must deliver exactly the same stream (incl. the final byte count).
 #[path = "../linebuffer_common.rs"]
 mod linebuffer_common;
+#[path = "../searcher_common.rs"]
+mod searcher_common;
 use grep_matcher::LineTerminator;
 use grep_regex::{RegexMatcher, RegexMatcherBuilder};
 use grep_searcher::{MmapChoice, SearcherBuilder};
@@ -55,6 +57,8 @@ struct Ds {
     invert: bool,
     line_number: bool,
     son: bool,
+    /// the sink answers `Ok(false)` at this callback index (None: never)
+    stop: Option<usize>,
     input: Input,
     strats: Vec<Strat>,
 }
@@ -121,7 +125,7 @@ impl Ds {
             Input::Gen(s, l, m) => format!("gen:{}:{}:{}", s, l, m),
         };
         format!(
-            "ds pat={} fast={} lt={} A={} B={} pt={} inv={} ln={} son={} inp={} strats={}",
+            "ds pat={} fast={} lt={} A={} B={} pt={} inv={} ln={} son={} stop={} inp={} strats={}",
             hex(self.pat.as_bytes()),
             self.fast as u8,
             match self.lt {
@@ -135,6 +139,7 @@ impl Ds {
             self.invert as u8,
             self.line_number as u8,
             self.son as u8,
+            self.stop.map_or("-".to_string(), |k| k.to_string()),
             inp,
             self.strats.iter().map(strat_str).collect::<Vec<_>>().join("|")
         )
@@ -167,6 +172,10 @@ impl Ds {
             invert: b("inv")?,
             line_number: b("ln")?,
             son: b("son")?,
+            stop: match get("stop") {
+                None | Some("-") => None,
+                Some(k) => Some(k.parse().ok()?),
+            },
             input,
             strats: get("strats")?.split('|').filter(|s| !s.is_empty()).map(parse_strat).collect::<Option<Vec<_>>>()?,
         })
@@ -217,7 +226,7 @@ fn finish_events(mut sink: RecSink, r: Result<(), std::io::Error>) -> Vec<String
 
 fn run_slice(d: &Ds, m: &RegexMatcher, inp: &[u8], ml: bool) -> Vec<String> {
     let mut s = d.builder().multi_line(ml).build();
-    let mut sink = RecSink::new();
+    let mut sink = RecSink::stopping(d.stop);
     let r = s.search_slice(m, inp, &mut sink);
     finish_events(sink, r)
 }
@@ -237,7 +246,7 @@ fn run_reader(
         b.verif_buffer_capacity(c);
     }
     let mut s = b.build();
-    let mut sink = RecSink::new();
+    let mut sink = RecSink::stopping(d.stop);
     let mut rdr = ScriptedReader::new(inp, script);
     let r = s.search_reader(m, &mut rdr, &mut sink);
     (finish_events(sink, r), rdr.log)
@@ -253,7 +262,7 @@ fn run_path(d: &Ds, m: &RegexMatcher, path: &Path, mmap: bool, ml: bool) -> Vec<
         b.memory_map(MmapChoice::never());
     }
     let mut s = b.build();
-    let mut sink = RecSink::new();
+    let mut sink = RecSink::stopping(d.stop);
     let r = s.search_path(m, path, &mut sink);
     finish_events(sink, r)
 }
@@ -293,7 +302,15 @@ fn first_diff(a: &[String], b: &[String]) -> String {
 
 /// Known-finding class of a difference, "" if none applies.
 fn classify(d: &Ds, spec: &[String], got: &[String], script: &[Step]) -> &'static str {
-    let _ = (spec, got);
+    // F10b: the sink stops the search inside a run of inverted matches: the fast path has already
+    // moved `pos` to the end of the line that ends the run (as far as the buffer shows it), so the
+    // byte count depends on the buffer extent; everything else is equal
+    if d.invert && d.stop.is_some() && spec.len() == got.len() && !spec.is_empty() {
+        let n = spec.len() - 1;
+        if spec[..n] == got[..n] && spec[n].starts_with("finish ") && got[n].starts_with("finish ") {
+            return "invert-fast-path-stop-byte-count";
+        }
+    }
     // the matcher's line anchors are LF-based (no NUL terminator configured on it, which is what
     // `rg -U --null-data` builds) while the searcher splits on NUL: matches depend on where the
     // buffer happens to start
@@ -461,6 +478,7 @@ fn gen_ds(rng: &mut Rng, boundary: bool, big: bool) -> Ds {
         invert: rng.chance(1, 4),
         line_number: rng.chance(2, 3),
         son: rng.chance(1, 5),
+        stop: if rng.chance(1, 5) { Some(rng.below(9)) } else { None },
         input,
         strats: vec![],
     };
@@ -504,12 +522,194 @@ fn gen_ds(rng: &mut Rng, boundary: bool, big: bool) -> Ds {
     d
 }
 
+// ---------------------------------------------------------------- rb: search_reader vs the ReadByLine model
+
+/// One reader-strategy search with a literal matcher (searcher-core's `LitMatcher`, whose Lean twin
+/// is `litMatcher`), a sink script, a capacity / heap limit and a read script.
+#[derive(Clone, Debug)]
+struct Rb {
+    cfg: searcher_common::Cfg,
+    m: searcher_common::LitMatcher,
+    inp: Vec<u8>,
+    cap: Option<usize>,
+    heap: Option<usize>,
+    script: Vec<Step>,
+    sink: searcher_common::Script,
+}
+
+impl Rb {
+    fn case_str(&self) -> String {
+        let o = |x: &Option<usize>| x.map_or("-".to_string(), |n| n.to_string());
+        format!(
+            "rb cfg={} needle={} term={} nm={} cand={} inp={} cap={} heap={} script={} sink={}",
+            self.cfg.token(),
+            hex(&self.m.needle),
+            searcher_common::opt_lt_name(self.m.term),
+            self.m.nm.as_ref().map_or("~".to_string(), |b| hex(b)),
+            self.m.cand.as_ref().map_or("~".to_string(), |b| hex(b)),
+            hex(&self.inp),
+            o(&self.cap),
+            o(&self.heap),
+            script_str(&self.script),
+            self.sink.token()
+        )
+    }
+    fn parse(parts: &[&str]) -> Option<Rb> {
+        let get = |k: &str| parts.iter().find_map(|p| p.strip_prefix(k).and_then(|r| r.strip_prefix('=')));
+        let o = |x: &str| if x == "-" { Some(None) } else { x.parse().ok().map(Some) };
+        let ob = |x: &str| if x == "~" { Some(None) } else { unhex(x).map(Some) };
+        Some(Rb {
+            cfg: searcher_common::Cfg::parse_token(get("cfg")?)?,
+            m: searcher_common::LitMatcher::new(
+                unhex(get("needle")?)?,
+                searcher_common::parse_opt_lt(get("term")?)?,
+                ob(get("nm")?)?,
+                ob(get("cand")?)?,
+            ),
+            inp: unhex(get("inp")?)?,
+            cap: o(get("cap")?)?,
+            heap: o(get("heap")?)?,
+            script: parse_script(get("script")?)?,
+            sink: searcher_common::Script::parse_token(get("sink")?)?,
+        })
+    }
+}
+
+fn run_rb(case: &str, c: &Rb, drv: &mut Driver, rep: &mut Report) {
+    rep.eval();
+    // a matcher that announces a terminator different from the searcher's is a configuration error
+    if let Some(t) = c.m.term {
+        if t != c.cfg.lt {
+            rep.branch("rb:mismatched-terminator(skipped)");
+            return;
+        }
+    }
+    let mut b = SearcherBuilder::new();
+    b.line_terminator(c.cfg.lt.to_line_terminator())
+        .invert_match(c.cfg.inv)
+        .after_context(c.cfg.a)
+        .before_context(c.cfg.b)
+        .passthru(c.cfg.pt)
+        .line_number(c.cfg.ln)
+        .stop_on_nonmatch(c.cfg.son)
+        .multi_line(c.cfg.ml)
+        .heap_limit(c.heap);
+    if let Some(cap) = c.cap {
+        b.verif_buffer_capacity(cap);
+    }
+    let mut searcher = b.build();
+    let mut sink = searcher_common::RecSink::new(c.sink);
+    let mut rdr = ScriptedReader::new(&c.inp, &c.script);
+    let r = searcher.search_reader(&c.m, &mut rdr, &mut sink);
+    let imp = format!("{}|{}", sink.events.join(";"), if r.is_ok() { "ok" } else { "err" });
+    let log = rdr.log.clone();
+    let o = |x: &Option<usize>| x.map_or("-".to_string(), |n| n.to_string());
+    let eff = c.cfg.effective();
+    let model = drv.ask(&format!(
+        "c02.rbl {} {} {} (script {}) {} {} {}",
+        eff.to_sx(),
+        c.m.to_sx(),
+        hex(&c.inp),
+        script_str(&log).replace(',', " ").replace('-', ""),
+        o(&c.cap),
+        o(&c.heap),
+        c.sink.to_sx()
+    ));
+    if imp != model {
+        rep.violation(Violation {
+            kind: "impl_vs_model".into(),
+            class: "".into(),
+            tie: "Searcher::search_reader (decoder pass-through, LineBuffer, ReadByLine::{run,fill}, Core::roll) vs Model.ReadByLine.searchReader".into(),
+            case: case.to_string(),
+            detail: format!("impl {} model {}", &imp[..imp.len().min(600)], &model[..model.len().min(600)]),
+        });
+    }
+    // the C02 statement inside the model: reader run = slice run (never expected to differ when the
+    // matcher is context-independent, which a literal is)
+    let slice = drv.ask(&format!("c02.slice {} {} {} {}", eff.to_sx(), c.m.to_sx(), hex(&c.inp), c.sink.to_sx()));
+    let alloc_err = r.is_err() && c.heap.is_some() && matches!(c.sink, searcher_common::Script::All);
+    let strip_fin = |s: &str| s.split(';').filter(|e| !e.starts_with("fin ")).collect::<Vec<_>>().join(";");
+    if model != slice && eff.inv && matches!(c.sink, searcher_common::Script::Stop(_)) && strip_fin(&model) == strip_fin(&slice) {
+        rep.branch("rb:F10b-invert-stop-byte-count");
+        return;
+    }
+    if model != slice && !alloc_err && !(c.heap.is_some() && model.ends_with("|err")) {
+        rep.violation(Violation {
+            kind: "model_vs_spec".into(),
+            class: "".into(),
+            tie: "C02 in the model: events (searchReader …) = events (searchSlice …)".into(),
+            case: case.to_string(),
+            detail: format!("reader model {} slice model {}", &model[..model.len().min(600)], &slice[..slice.len().min(600)]),
+        });
+    }
+    rep.branch("rb:run");
+    if log.contains(&Step::Intr) {
+        rep.branch("rb:interrupted");
+    }
+    match c.sink {
+        searcher_common::Script::All => {}
+        searcher_common::Script::Stop(_) => rep.branch("rb:sink-stop"),
+        searcher_common::Script::Err(_) => rep.branch("rb:sink-err"),
+    }
+    let eff_cap = c.cap.or(c.heap.map(|h| h.min(65536))).unwrap_or(65536);
+    if eff_cap < c.inp.len() {
+        rep.branch("rb:rolled");
+        if (eff.a > 0 || eff.b > 0 || eff.pt) && sink.events.iter().any(|e| e.starts_with("c ")) {
+            rep.branch("rb:rolled-with-context");
+            rep.nontrivial(case);
+        }
+    }
+}
+
+fn gen_rb(rng: &mut Rng, boundary: bool) -> Rb {
+    let cfg = searcher_common::gen_cfg(rng, 3);
+    let needle: Vec<u8> = match rng.below(4) {
+        0 => b"x".to_vec(),
+        1 => b"ab".to_vec(),
+        2 => b"a".to_vec(),
+        _ => b"b x".to_vec(),
+    };
+    let m = match searcher_common::gen_lit_matcher(rng, &cfg, &needle) {
+        searcher_common::MatcherSpec::Lit { needle, term, nm, cand } => {
+            searcher_common::LitMatcher::new(needle, term, nm, cand)
+        }
+        _ => searcher_common::LitMatcher::new(needle, None, None, None),
+    };
+    let t = cfg.lt.byte();
+    let inp = if boundary {
+        match rng.below(5) {
+            0 => vec![],
+            1 => vec![t],
+            2 => b"x".to_vec(),
+            3 => vec![b'x', t, t, b'a', b'b'],
+            _ => gen_lines(rng, t, cfg.lt == searcher_common::Lt::Crlf, 4, 3, b"abx"),
+        }
+    } else {
+        let (ml, mx) = (*rng.pick(&[3usize, 8, 20]), *rng.pick(&[3usize, 10, 30]));
+        gen_lines(rng, t, cfg.lt == searcher_common::Lt::Crlf, ml, mx, b"aabx  ")
+    };
+    let cap = if rng.chance(1, 8) { None } else { Some(*rng.pick(&[1usize, 1, 2, 3, 5, 8, 13, 64])) };
+    let heap = if rng.chance(1, 8) { Some(rng.range(1, 40)) } else { None };
+    let intr = rng.chance(1, 6);
+    let script = gen_script(rng, inp.len(), intr);
+    let sink = match rng.below(6) {
+        0 => searcher_common::Script::Stop(rng.below(8)),
+        1 => searcher_common::Script::Err(rng.below(8)),
+        _ => searcher_common::Script::All,
+    };
+    Rb { cfg, m, inp, cap, heap, script, sink }
+}
+
 fn run_case(case: &str, args: &Args, drv: &mut Driver, rep: &mut Report) {
     let parts: Vec<&str> = case.split(' ').collect();
     match parts.first().copied() {
         Some("lb") => match LbCase::parse(&parts) {
             Some(c) if c.bin == Bin::None => check_lb_case(case, &c, "c02", drv, rep),
             _ => rep.notes.push(format!("unparsable case: {}", case)),
+        },
+        Some("rb") => match Rb::parse(&parts) {
+            Some(c) => run_rb(case, &c, drv, rep),
+            None => rep.notes.push(format!("unparsable case: {}", case)),
         },
         Some("ds") => match Ds::parse(&parts) {
             Some(d) => run_ds(case, &d, &args.scratch, rep),
@@ -543,6 +743,8 @@ fn main() {
         for i in 0..n {
             let case = if i % 3 == 0 {
                 gen_lb_case(&mut rng, Bin::None, i % 30 == 0).case_str()
+            } else if i % 3 == 1 {
+                gen_rb(&mut rng, i % 30 == 1).case_str()
             } else {
                 let big = args.thorough && i % 200 == 1;
                 gen_ds(&mut rng, i % 20 == 2, big).case_str()
